@@ -182,6 +182,9 @@ def r05_5(ctx, rep):
     kept_by_reference(ctx, rep, "R05.5")
 
 
+BACKEND_GENERATORS = ("src/pymoca/backends/sympy/generator.py", "src/pymoca/backends/xml/generator.py", "src/pymoca/backends/casadi/generator.py")
+
+
 @SPEC.rule(
     "R05.6",
     "nothing is remembered between requests: tree.flatten and the three backends' generate() use no module-level container and "
@@ -195,6 +198,23 @@ def r05_6(ctx, rep):
                        ("src/pymoca/backends/sympy/generator.py", "generate"), ("src/pymoca/backends/xml/generator.py", "generate"),
                        ("src/pymoca/backends/casadi/generator.py", "generate")):
         no_cross_call_state(ctx, rep, R, rel, fname)
+    # and nowhere below them: lookups (ast.py) and the flattening helpers (tree.py) keep no memo either
+    from .c25 import module_state_free
+    module_state_free(ctx, rep, R, "src/pymoca/ast.py", "the class and symbol lookups")
+    module_state_free(ctx, rep, R, "src/pymoca/tree.py", "the flattening passes")
+    for rel in BACKEND_GENERATORS:
+        module_state_free(ctx, rep, R, rel, "the generator module (generate() and every helper it may call)")
+
+
+@SPEC.rule(
+    "R05.7",
+    "the CLI treats every requested model alone: no local of main() that is assigned while one model is processed can be read "
+    "while the next one is processed before it is set again (same rule as R26.5, evaluated here for the property's CLI clause)",
+)
+def r05_7(ctx, rep):
+    from .c26 import per_model_state
+
+    per_model_state(ctx, rep, "R05.7")
 
 
 # -- seeded variants ---------------------------------------------------------
